@@ -15,6 +15,7 @@
 """
 from __future__ import annotations
 
+import atexit
 import json
 import os
 import random
@@ -35,8 +36,8 @@ DEV_BREAKS = {"ResolveWhenFileEnds": "ResolvedAsDocumented|FailsOnlyWhenDangling
 NPROC = tlc.NCPU     # processes / TLC shards running at once
 
 
-def _env(univ="m", names="AB", maximp="2", dev="", emit="1", variants="1", cases="", shard=0, nshards=1):
-    return dict(VT_UNIV=univ, VT_NAMES=names, VT_MAXIMP=maximp, VT_DEV=dev, VT_EMIT=emit, VT_VARIANTS=variants,
+def _env(univ="m", names="AB", maximp="2", dev="", emit="1", variants="1", cases="", shard=0, nshards=1, flt=""):
+    return dict(VT_FILTER=flt, VT_UNIV=univ, VT_NAMES=names, VT_MAXIMP=maximp, VT_DEV=dev, VT_EMIT=emit, VT_VARIANTS=variants,
                 VT_CASES=cases, VT_SHARD=str(shard), VT_NSHARDS=str(nshards))
 
 
@@ -53,19 +54,21 @@ class _Merged:
 
 
 def enumerate_cases(plan, dev="", cfg="MC_Imports_Gen.cfg", variants="1", maximp="2"):
-    """plan: [(universe, names, shards)].  All shards of all universes share one pool of NPROC TLC processes."""
-    jobs = [(u, nm, k, max(1, min(sh, NPROC))) for u, nm, sh in plan for k in range(max(1, min(sh, NPROC)))]
+    """plan: [(universe, names, shards[, graph filter])].  All shards of all universes share one pool of NPROC
+    TLC processes."""
+    plan = [tuple(e) + ("",) * (4 - len(e)) for e in plan]
+    jobs = [(u, nm, k, max(1, min(sh, NPROC)), flt) for u, nm, sh, flt in plan for k in range(max(1, min(sh, NPROC)))]
 
     def one(job):
-        u, nm, k, n = job
+        u, nm, k, n, flt = job
         return tlc.model_check("MC_Imports", cfg=cfg, workers=1, timeout=3000, heap="2g",
-                               env=_env(u, nm, maximp, dev, "1", variants, "", k, n))
+                               env=_env(u, nm, maximp, dev, "1", variants, "", k, n, flt))
     with ThreadPoolExecutor(max_workers=NPROC) as ex:
         rs = list(ex.map(one, jobs))
     out = {}
     for job, r in zip(jobs, rs):
         tlc.require_ok(r, f"MC_Imports {job} dev={dev!r}")
-        m, items = out.setdefault((job[0], job[1]), ([], []))
+        m, items = out.setdefault((job[0], job[1] + ("/" + job[4] if job[4] else "")), ([], []))
         m.append(r)
         items.extend(r.results("CASE"))
     return {k: (_Merged(m), items) for k, (m, items) in out.items()}
@@ -98,13 +101,25 @@ def evaluate_file_cases(skeletons, dev=""):
 
 
 # ------------------------------------------------------------------ running the real code
+_WORKDIR = {}      # pid -> (directory, the case rendered there before)
+
+
 def _observe_one(case):
-    root = tlc.scratch("vt-c25-")
-    try:
-        out, msg = drv.observe(case, root)
-        return drv.norm(out), msg
-    finally:
-        shutil.rmtree(root, ignore_errors=True)
+    """Render and load one case.  Every process renders all its cases into ONE directory (emptied in between),
+    so the same file names recur with different contents: what a load sees must only depend on the files as they
+    are now.  Returns (outcome, message, the case that was in the directory before)."""
+    pid = os.getpid()
+    if pid not in _WORKDIR:
+        _WORKDIR.clear()
+        d = tlc.scratch("vt-c25-")
+        atexit.register(shutil.rmtree, d, True)
+        _WORKDIR[pid] = [d, None]
+    root, prev = _WORKDIR[pid]
+    shutil.rmtree(root, ignore_errors=True)
+    os.makedirs(root)
+    _WORKDIR[pid][1] = case
+    out, msg = drv.observe(case, root)
+    return drv.norm(out), msg.replace(root, "<dir>"), prev
 
 
 _POOL = None
@@ -151,12 +166,12 @@ def compare_batch(rep, items):
     """items: list of {case, out} from TLC (Dev = {}).  Observe and compare; returns the mismatching ones."""
     obs = _observe_many([it["case"] for it in items])
     pending = []
-    for it, (o, msg) in zip(items, obs):
+    for it, (o, msg, prev) in zip(items, obs):
         exp = drv.norm(it["out"])
         if common.canon(o) == common.canon(exp):
             rep.passed(_brief(it["case"], exp), nontrivial=_nontrivial(it["case"], exp))
         else:
-            pending.append((it, o, msg, exp))
+            pending.append((it, o, msg, exp, prev))
     return pending
 
 
@@ -169,13 +184,27 @@ def explain(rep, pending, devs):
             m, res = evaluate_file_cases(sk, dev=d)
             rep.add_mc(f"MC_Imports_File[Dev={d}]", m, ["(Expected(case, {%s}))" % d])
             alt[fid] = {x["case"]["id"]: drv.norm(x["out"]) for x in res}
-    for n, (it, o, msg, exp) in enumerate(pending):
+    for n, (it, o, msg, exp, prev) in enumerate(pending):
         hit = next((fid for fid in alt if common.canon(alt[fid].get(f"k{n}")) == common.canon(o)), None)
         if hit:
             rep.known_finding(hit, _brief(it["case"], exp))
-        else:
-            rep.violation(dict(case=it["case"], observed=o, expected=exp, message=msg[:300]),
-                          _why(it["case"], o, exp))
+            continue
+        why = _why(it["case"], o, exp)
+        if prev is not None:
+            fresh = _observe_fresh(it["case"])
+            if common.canon(fresh) == common.canon(exp) or any(common.canon(a.get(f"k{n}")) == common.canon(fresh)
+                                                               for a in alt.values()):
+                why = ("the load depends on what the process loaded before: in a fresh directory these files load as "
+                       "prescribed, but not after another file set had been loaded from the same paths -- " + why)
+        rep.violation(dict(case=it["case"], prev=prev, observed=o, expected=exp, message=msg[:300]), why)
+
+
+def _observe_fresh(case):
+    root = tlc.scratch("vt-c25f-")
+    try:
+        return drv.norm(drv.observe(case, root)[0])
+    finally:
+        shutil.rmtree(root, ignore_errors=True)
 
 
 def _brief(case, exp):
@@ -250,6 +279,10 @@ def run(rep):
                 "at all on cyclic graphs) rendered as .tx files and loaded; I->S: "
                 "seeded-random trees of 3-6 files in 4 directories with self/repeated imports, completed and judged by TLC. "
                 "Non-trivial: a variant, or a case where some reference resolves into another file; distinct by content.")
+    rep.rule += (" Universes with a graph filter `reorder` keep the acyclic graphs on which some file imports P before Q "
+                 "while Q was loaded earlier through another file (import order differs from load order). Every worker "
+                 "process renders all its cases into one directory, so the same paths recur with other contents: a load "
+                 "must depend on the present files only (a mismatch that disappears in a fresh directory is reported as such).")
     rep.assumptions = [
         "imported files are those named by the import statements of the file itself (not transitively imported ones)",
         "import statements only name existing files (a missing file is outside the documented behaviour)",
@@ -262,12 +295,14 @@ def run(rep):
     findings = common.open_findings(PID)
     devs = {f["id"]: f["deviation"] for f in findings}
     plan = [("mf", "ABC", 2), ("mf", "K", 2), ("mf", "I", 2), ("first", "K", 2), ("syntax", "A", 3),
-            ("mfg", "AB", 4), ("mgh", "A", 3), ("mfe", "A", 4), ("mkhh", "A", 4)] if quick else \
+            ("mfg", "AB", 4), ("mgh", "A", 3), ("mfe", "A", 4), ("mkhh", "A", 4), ("mfeg", "A", 4, "reorder")] if quick else \
            [("m", "ABC", 1), ("mf", "ABC", 2), ("mf", "K", 2), ("mf", "I", 2), ("first", "ABC", 2), ("first", "K", 2),
             ("syntax", "AB", 4), ("mfg", "AB", 6), ("mfg", "K", 12), ("mfg", "I", 8), ("mgh", "AB", 6), ("mfe", "AB", 8),
-            ("mfgh", "A", 8), ("mfeg", "A", 12), ("mfgk", "A", 8), ("mkhh", "AB", 12), ("mkhg", "A", 6)]
+            ("mfgh", "A", 8), ("mfeg", "A", 12), ("mfgk", "A", 8), ("mkhh", "AB", 12), ("mkhg", "A", 6),
+            ("mfeg", "AB", 8, "reorder")]
     if os.environ.get("VT_C25_PLAN"):      # development aid: "mf:AB:2,mfg:A:3"
-        plan = [(a, b, int(c)) for a, b, c in (x.split(":") for x in os.environ["VT_C25_PLAN"].split(","))]
+        plan = [(x.split(":") + [""])[:4] for x in os.environ["VT_C25_PLAN"].split(",")]
+        plan = [(a, b, int(c), f) for a, b, c, f in plan]
     pending = []
     try:
         _run_conformance(rep, plan, quick, rng, pending, devs)
@@ -321,7 +356,9 @@ def replay(path):
     with open(path) as f:
         rec = json.load(f)
     case = rec["case"]["case"]
-    o, msg = _observe_one(case)
+    if rec["case"].get("prev"):      # the file set that was loaded from the same paths before
+        _observe_one(rec["case"]["prev"])
+    o, msg, _ = _observe_one(case)
     for f in case["files"]:
         print(f"--- {'/'.join(f['path'])}.tx\n{drv.render_file(f)}", end="")
     _, res = evaluate_file_cases([skeleton_of(case, "replay")])
